@@ -62,9 +62,9 @@ def Store.load : Store → Nat → Nat → Option (List Byte)
 def Store.write : Store → Nat → List Byte → Option Store
   | .own m, off, d => (wrList m off d).map .own
   -- attached memory is never modified (a zero-length `memcpy` touches nothing)
-  | .att m, off, d => if d = [] ∧ off ≤ m.length then some (.att m) else none
+  | .att m, off, d => if d.length = 0 ∧ off ≤ m.length then some (.att m) else none
   -- the capacity field is never written through a data pointer
-  | .dflt c, _, d => if d = [] then some (.dflt c) else none
+  | .dflt c, _, d => if d.length = 0 then some (.dflt c) else none
 
 /-- one `Buffer` object: `buffer`/block, `bufferStart = block + s`, `bufferEnd = block + e`, `_capacity` -/
 structure Buf where
